@@ -70,7 +70,9 @@ def add_annotations(rng, spec):
                 f["annotations"] = ann
 
 
-def gen(rng, index, tier, dict_heavy=False, vary_k=False):
+def gen(rng, index, tier, dict_heavy=None, vary_k=False):
+    if dict_heavy is None:
+        dict_heavy = rng.random() < 0.25
     pool = 512 if tier == "quick" else 4096
     spec, pkn = c02.gen_program_spec(int(os.environ.get("VERIF_SEED", "1") or 1), pool, index)
     spec = dict(spec, funcs=[dict(f) for f in spec["funcs"]])
@@ -179,7 +181,7 @@ def run(plan):
             pre, tail = E.stub_argv(plan["flag"], modname)
             # --limit is exactly the number of distinct rows: duplicates (hot calls) must not displace rare traces
             pre = tuple(pre) + ("--limit", str(max(1, len({tuple(x[1:]) for x in r.rows}))))
-            r.stubs[m] = E.run_cli(tail, r.path, plan["k_stub"], plan["rewriter"], pre)
+            r.stubs[m] = E.run_cli(tail, r.path, plan["k_stub"], plan["rewriter"], pre, k_decoy=plan.get("k_decoy"))
     finally:
         shutil.rmtree(workdir, ignore_errors=True)
     return r
